@@ -490,9 +490,16 @@ class IPAddr6 (_AddrBase):
         addr += ':0:0'
 
       segs = addr.split(':')
-      if addr.count('::') > 1:
+      if addr.count('::') > 1 or ':::' in addr:
         raise RuntimeError("Bad address format " + str(addr))
       if len(segs) < 3 or len(segs) > 8:
+        raise RuntimeError("Bad address format " + str(addr))
+      if '::' not in addr and len(segs) != 8:
+        # Without a dropped section, all eight groups must be there
+        raise RuntimeError("Bad address format " + str(addr))
+      if ((addr.startswith(':') and not addr.startswith('::')) or
+          (addr.endswith(':') and not addr.endswith('::'))):
+        # An empty group is only allowed as part of the dropped section
         raise RuntimeError("Bad address format " + str(addr))
 
       # Parse the two "sides" of the address (left and right of the optional
